@@ -8,14 +8,17 @@ T="${MCMC_TARGET_DIR:-$V/.cache/target}"
 DRV=$V/driver/target/release/mcmc-facts
 [ -x "$DRV" ] || { echo "extract: driver not built (run setup)" >&2; exit 2; }
 SYSROOT=$(rustc +nightly --print sysroot)
+PROFILE="${MCMC_PROFILE:-dev}"
+PDIR=debug; PFLAG=()
+if [ "$PROFILE" = "release" ]; then PDIR=release; PFLAG=(--release); fi
 rm -f "$OUT"
-rm -rf "$T"/debug/.fingerprint/mini-mcmc-* 2>/dev/null || true
+rm -rf "$T"/$PDIR/.fingerprint/mini-mcmc-* 2>/dev/null || true
 FEAT=()
 [ -n "$FEATURES" ] && [ "$FEATURES" != "none" ] && FEAT=(--features "$FEATURES")
 cd "$REPO"
 if ! LD_LIBRARY_PATH="$SYSROOT/lib" RUSTC_WORKSPACE_WRAPPER="$DRV" MCMC_FACTS_OUT="$OUT" \
    CARGO_TARGET_DIR="$T" CARGO_NET_OFFLINE=true \
-   cargo +nightly check --offline --lib "${FEAT[@]}" >"$OUT.log" 2>&1; then
+   cargo +nightly check --offline --lib "${PFLAG[@]}" "${FEAT[@]}" >"$OUT.log" 2>&1; then
   echo "extract: cargo check failed (see $OUT.log)" >&2
   tail -30 "$OUT.log" >&2
   exit 2
